@@ -700,3 +700,9 @@ def coq_equation(c, mr):
             coq_lit(cv["p"]), coq_lit(cv["a"]), coq_lit(cv["b"]), coq_bytes(a[1]), coq_lit(a[2]), coq_lit(a[3]),
             _coq_opt_Z(a[4]), res)
     return None
+
+
+# ops whose answer must not depend on the concrete bytes-like type of their arguments (they agree on the pinned tree;
+# tools/bytearray_probe.py); common.py re-runs a sample of their cases with bytearray arguments
+BYTEARRAY_OPS = {'to_bitcoin_address', 'addr_script'}
+MEMORYVIEW_OPS = {'to_bitcoin_address', 'addr_script'}
